@@ -177,6 +177,7 @@ const char *vh_variant = "prod";
 const char *vh_distinct_file = NULL;
 const char *vh_arg_mode = "";
 static int vh_nofork = 0;
+int vh_fork_each_case = 0;      /* every case runs in its own freshly forked child: no library state survives from case to case */
 static int vh_case_timeout = 120;
 static int g_argc; static char **g_argv;
 static uint64_t *dset; static uint64_t dset_cap = 1u << 21;
@@ -390,8 +391,8 @@ int vh_run(vh_case_fn fn)
         if (pid < 0) { fprintf(stderr, "vh_run: fork failed\n"); exit(2); }
         if (pid == 0) {
             uint64_t i;
-            for (i = next; i < end; ++i) if (i % vh_nshards == vh_shard) { fn(i); vh_sh->done_upto = i + 1; }
-            vh_sh->done_upto = end;
+            for (i = next; i < end; ++i) if (i % vh_nshards == vh_shard) { fn(i); vh_sh->done_upto = i + 1; if (vh_fork_each_case) break; }
+            if (!vh_fork_each_case || i >= end) vh_sh->done_upto = end;
             if (vh_child_exit_hook) vh_child_exit_hook();
             fflush(stdout);
 #ifdef VH_COVERAGE
@@ -420,7 +421,7 @@ int vh_run(vh_case_fn fn)
                 continue;
             }
         }
-        if (WIFEXITED(st) && WEXITSTATUS(st) == 0) break;
+        if (WIFEXITED(st) && WEXITSTATUS(st) == 0) { if (vh_fork_each_case && vh_sh->done_upto < end) { next = vh_sh->done_upto; continue; } break; }
         /* abnormal end in case cur_case */
         ++crashes;
         {
